@@ -82,6 +82,9 @@ Proof. vm_compute. reflexivity. Qed.
 (** a default with every kind of escape round-trips, inside a list with a null *)
 Definition v_ex : gval := GList [GString hard_string; GNull; GString []].
 Definition t_ex : sty := StNonNull (StList (StNamed (nm "String"))).
+(** an input object value: In { a: Int! = 7, s: String } given as {s: "...", a: 3} (Go's map order) *)
+Definition v_obj : gval := GList [GMap [ (nm "s", GString hard_string); (nm "a", GInt 3) ]; GNull].
+Definition t_obj : sty := StList (StNamed (nm "In")).
 
 Example roundtrip_hypotheses : default_conforms S_ex v_ex t_ex = true /\ printable v_ex.
 Proof.
@@ -91,7 +94,22 @@ Qed.
 Example roundtrip_instance :
   exists txt, marshal S_ex v_ex t_ex = MOk txt /\ literal_denotes S_ex t_ex txt v_ex = true.
 Proof.
-  apply default_roundtrip_values; [apply enums_ok_b_spec; vm_compute; reflexivity | | ]; apply roundtrip_hypotheses.
+  apply default_roundtrip_values;
+    [apply enums_ok_b_spec; vm_compute; reflexivity | apply inputs_ok_b_spec; vm_compute; reflexivity | | ];
+    apply roundtrip_hypotheses.
+Qed.
+
+Example roundtrip_object_hypotheses : default_conforms S_ex v_obj t_obj = true /\ printable v_obj.
+Proof.
+  split; [vm_compute; reflexivity|]. simpl. repeat split; repeat constructor.
+Qed.
+
+Example roundtrip_object_instance :
+  exists txt, marshal S_ex v_obj t_obj = MOk txt /\ literal_denotes S_ex t_obj txt v_obj = true.
+Proof.
+  apply default_roundtrip_values;
+    [apply enums_ok_b_spec; vm_compute; reflexivity | apply inputs_ok_b_spec; vm_compute; reflexivity | | ];
+    apply roundtrip_object_hypotheses.
 Qed.
 
 (** the rebuilt definition *)
